@@ -193,24 +193,32 @@ def random_clifford_t(rng: random.Random, k, depth):
     return c
 
 
-def exact_states(pid, circuits, M, name="targets"):
-    """circuits: [(k, [gate records])] -> ([{"k": exponent, "e": [[coeffs]...]} column matrices], [numpy vectors], stats)
-    States U|0> computed exactly by TLC (TapeEval.tla); the ring values are returned unchanged for feeding the trace spec."""
-    cases = [{"n": k, "ops": c, "meas": [{"t": "state"}]} for k, c in circuits]
-    out, st = tapeeval.evaluate(pid, cases, M, name=name, raw=True)
-    ring, flt = [], []
-    for o in out:
-        v = o["meas"][0]
-        kk = max(x["k"] for x in v)
-        e = [[[ci * (1 << (kk - x["k"])) for ci in x["c"]]] for x in v]
-        ring.append({"k": kk, "e": e})
-        flt.append(np.array([ring_to_complex(x["c"], x["k"], M) for x in v], dtype=complex))
+def lift(mat, m_from, m_to):
+    """re-index a ring matrix from level m_from to the finer level m_to (zeta_from = zeta_to^(2^(m_to-m_from))): exact."""
+    if m_from == m_to:
+        return mat
+    step, H = 1 << (m_to - m_from), 1 << (m_to - 1)
+    rows = []
+    for row in mat["e"]:
+        rr = []
+        for c in row:
+            v = [0] * H
+            for i, x in enumerate(c):
+                v[i * step] = x
+            rr.append(v)
+        rows.append(rr)
+    return {"k": mat["k"], "e": rows}
+
+
+def exact_targets(pid, items, m_run, m_out, name="targets"):
+    """items: [(k, [gate records], "state" | "unitary")] -> ([ring matrices at level m_out], [numpy arrays], stats).
+    One TLC run (CircuitEq.tla, 'emit'): TLC evaluates every circuit exactly at level m_run and prints U|0> (column 0 only)
+    or the whole U; the ring values are only re-indexed to level m_out before they are fed back to the trace specs."""
+    cases = [{"n": k, "a": c, "cs": [0] if what == "state" else [], "bs": [{"b": [], "rel": "emit"}]} for k, c, what in items]
+    _, emitted, st = rel.validate(pid, cases, m_run, name=name)
+    ring = [lift(emitted[i], m_run, m_out) for i in range(len(items))]
+    flt = []
+    for (k, c, what), u in zip(items, ring):
+        a = lib.ring_matrix_to_numpy(u, m_out)
+        flt.append(a[:, 0] if what == "state" else a)
     return ring, flt, st
-
-
-def exact_unitaries(pid, circuits, M, name="unitaries"):
-    """circuits: [(k, [gate records])] -> ([ring matrices], [numpy matrices], stats) via CircuitEq 'emit'."""
-    cases = [{"n": k, "a": c, "bs": [{"b": [], "rel": "emit"}]} for k, c in circuits]
-    _, emitted, st = rel.validate(pid, cases, M, name=name)
-    ring = [emitted[i] for i in range(len(circuits))]
-    return ring, [lib.ring_matrix_to_numpy(u, M) for u in ring], st
